@@ -638,3 +638,5 @@ theorem exists_woken_unblocked {cfg : Cfg} {s : State} (hA : InvA cfg s) (hW : I
         have hmem : (u, true) ∈ s.waiters k := by rw [hws]; exact List.mem_cons_self
         have huw : (s.task u).ctl = .waiting k := (hW.wait_iff k u).mp ⟨true, hmem⟩
         exact ⟨u, hlt u (by simp [huw]), hW.entry_woken k u (by simp) hmem, by simp [huw], hnb u⟩
+
+end MdModel.Once
